@@ -10,5 +10,6 @@ CONSTANTS
   TimeoutsK = {2}
   MaxOpens = 1
   EnvEdits = FALSE
+  MidRun = "no"
 INVARIANTS Containment OrderRespected NoDescentBelowOomGroup UnpopulatedNeverAttempted DryIsPure NoSignalWhileHookOutstanding AtMostOneInvocation OneFirePerVictim RetMapping NoFireAfterWindow
 CHECK_DEADLOCK FALSE
